@@ -4,7 +4,7 @@
 From Coq Require Import QArith Qreals Reals Lra List Bool.
 From MSDM Require Import base.Num base.NumInst base.NumR base.Transfer model.MDP model.VI model.PolicyEval
      theory.Bellman theory.VITheory theory.VITransfer theory.PolicyEvalTheory theory.PolicyEvalUndisc
-     theory.PolicyEvalTransfer theory.PolicyEvalMain.
+     theory.PolicyEvalLimit theory.PolicyEvalTransfer theory.PolicyEvalMain.
 Import ListNotations.
 Local Open Scope Q_scope.
 
@@ -101,3 +101,9 @@ Proof.
   - discriminate H.
   - repeat constructor.
 Qed.
+
+(* absorption-time certificate for the same example (states off the -inf set: s3, s4) *)
+Definition uTau : list Q := [0; 0; 0; 1; 3].
+Example ex_undisc_tau :
+  @c02_tau Q NumQ (mQ 5 2 uP uR uAv uAb uIni 1) (piQ uPsl uPal uData) uTau = true.
+Proof. vm_compute. reflexivity. Qed.
